@@ -1,5 +1,6 @@
 #!/bin/bash
 # usage: tools/try_equiv.sh <dir with patch.diff> [props...]   (behaviour-preserving change: every check must exit 0)
+VERIF_DIR="$(cd "$(dirname "$(readlink -f "${BASH_SOURCE[0]}")")/.." && pwd)"
 set -u
 MD=$(readlink -f "$1"); shift 1
 WT=/tmp/wt/_equiv_$$
@@ -8,7 +9,7 @@ cd $WT
 if ! git apply "$MD/patch.diff" 2>/dev/null; then echo "APPLY-FAILED on current HEAD"; cd /; git -C /repo worktree remove --force $WT; exit 3; fi
 T=$(PYTHONPATH=$WT /venv/bin/python -m pytest -q -p no:cacheprovider --deselect tests/test_poly.py::test_basic --deselect tests/test_poly.py::test_degree 2>&1 | tail -1)
 echo "tests-with-patch: $T"
-cd "$(dirname "$(readlink -f "${BASH_SOURCE[0]}")")/.."
+cd "$VERIF_DIR"
 PROPS=${@:-$(/venv/bin/python -c "import json;print(' '.join(c['property_id'] for c in json.load(open('MANIFEST.json'))['checks']))")}
 for P in $PROPS; do
   OUT=$(FORMULAE_REPO=$WT PYTHONPATH=$WT VERIF_SEED=${SEED:-0} ./check $P --tier quick 2>&1); RC=$?
